@@ -768,6 +768,10 @@ pub fn gen_c08(seed: u64, thorough: bool) -> Case {
         let r = rng.pick(ROOTS);
         let dmax = max_depth_for(r.class);
         case.push(GK::NewGame { root: root_cmd(r), pre: vec![] });
+        let pre_n = rng.below(3);
+        let pre = walk(&mut rng, r.fen, pre_n);
+        case.steps.clear();
+        case.push(GK::NewGame { root: root_cmd(r), pre });
         for _ in 0..rng.range(2, 4) {
             case.push(GK::PosCur);
             case.raw(format!("go depth {}", rng.range(1, dmax)));
@@ -775,8 +779,11 @@ pub fn gen_c08(seed: u64, thorough: bool) -> Case {
                 case.raw("wait");
             }
             case.push(GK::AwaitBest);
-            if rng.chance(1, 4) {
-                case.push(GK::Advance { best: true, replies: vec![rng.next() as u32] });
+            match rng.below(4) {
+                0 => case.push(GK::Advance { best: true, replies: vec![rng.next() as u32] }),
+                // back at the same position through a repetition shuffle that starts with the move just announced
+                1 => case.push(GK::RepeatAfterBest),
+                _ => {}
             }
         }
         case.raw("quit");
@@ -872,6 +879,49 @@ pub fn gen_c13(seed: u64, _thorough: bool) -> Case {
             case.raw("stop");
             case.push(GK::AwaitBest);
         }
+        case.raw("quit");
+        return case;
+    }
+    if fam == 5 && seed % 16 < 8 {
+        // a timed search that ends long before its budget (stop, depth limit, single reply), then the timed search
+        // under test: it needs a timer of its own, and the sleeping timer of the first one must not matter
+        case.family = "after-early-ended-timed-search".into();
+        case.params.policy = match rng.below(3) {
+            0 => Policy::Np,
+            1 => Policy::Rw(50),
+            _ => Policy::Pct(2),
+        };
+        case.params.fair = *rng.pick(&[2u32, 8, 64]);
+        case.params.node_cost = *rng.pick(&[100_000u64, 1_000_000]);
+        case.params.tt_cap = 1024;
+        case.params.max_polls = 100_000;
+        case.push(GK::PosCur);
+        let long = rng.log_uniform(2_000, 40_000);
+        match rng.below(3) {
+            0 => {
+                case.raw(format!("go movetime {}", movetime_for(&case, long)));
+                case.push(GK::AfterPolls(rng.below(50)));
+                case.raw("stop");
+            }
+            1 => case.raw(format!("go depth {} movetime {}", rng.range(1, 3), movetime_for(&case, long))),
+            _ => {
+                case.push(GK::GoClock { own: movetime_for(&case, long) * 50 + 8_000, own_inc: 0, opp: 60_000, opp_inc: 0 });
+                case.push(GK::AfterPolls(rng.below(50)));
+                case.raw(if rng.chance(1, 3) { "ucinewgame" } else { "stop" });
+            }
+        }
+        case.push(GK::AwaitBest);
+        case.push(GK::Advance { best: true, replies: vec![] });
+        case.push(GK::PosCur);
+        let short = rng.log_uniform(5, 600);
+        if rng.chance(1, 2) {
+            case.raw(format!("go movetime {}", movetime_for(&case, short)));
+        } else {
+            let want = movetime_for(&case, short) - 5;
+            let own = rng.log_uniform(1_000, 600_000u64.min(50 * (want + 155)));
+            case.push(GK::GoClock { own, own_inc: (want + 155).saturating_sub(own / 50), opp: rng.log_uniform(1, 600_000), opp_inc: 0 });
+        }
+        case.push(GK::AwaitBest);
         case.raw("quit");
         return case;
     }
@@ -1060,7 +1110,33 @@ pub fn gen_c19(seed: u64, _thorough: bool) -> Case {
             swarm_params(&mut rng, &mut case);
         }
     }
-    if pert == 5 {
+    if pert == 4 && item % 3 == 0 {
+        // very many searches before the reset (counts around powers of two), the last of them of the item's own
+        // position and deeper than the item asks for
+        case.family = "many-searches-then-ucinewgame".into();
+        case.params.policy = Policy::Np;
+        case.params.node_cost = 10_000;
+        case.params.tt_cap = 1024;
+        case.params.max_polls = 2_000_000;
+        case.params.max_steps = 8_000_000;
+        let n = *rng.pick(&[127u64, 128, 129, 255, 256, 257, 256, 512]);
+        let fill = rng.pick(ROOTS);
+        let fill_root = if fill.class == 3 { "startpos".to_string() } else { root_cmd(fill) };
+        case.push(GK::NewGame { root: fill_root, pre: vec![] });
+        for k in 0..n - 1 {
+            case.push(GK::PosCur);
+            case.raw("go depth 1");
+            case.push(GK::AwaitBest);
+            if k % 3 == 2 {
+                case.push(GK::Advance { best: true, replies: vec![] });
+            }
+        }
+        case.push(GK::NewGame { root: root.clone(), pre: pre.clone() });
+        case.push(GK::PosCur);
+        case.raw(format!("go depth {}", depth + 2));
+        case.push(GK::AwaitBest);
+        case.raw("ucinewgame");
+    } else if pert == 5 {
         // deeper searches on both sides of the reset: state that only a deep search builds up (ordering heuristics) must not
         // survive `ucinewgame` either; the new game may be longer or shorter than the old one
         case.family = "deep-prior-history-then-ucinewgame".into();
@@ -1205,7 +1281,7 @@ fn long_walk(rng: &mut Rng, root: &str, n: u64) -> Vec<String> {
 pub fn gen_c15(seed: u64, thorough: bool) -> Case {
     let mut rng = Rng::new(seed, 0x15);
     let fam = seed % 8;
-    let tiny = ["KvK", "KvK-b", "KPK", "KRK", "KQK", "KBNK", "knights-tour", "pawn-wall", "minor-endgame"];
+    let tiny = ["KvK", "KvK-b", "KPK", "KRK", "KQK", "KBNK", "knights-tour", "pawn-wall", "minor-endgame", "fortress", "fortress-b"];
     if fam <= 3 {
         // long games through `position ... moves ...`, then a search left running
         let mut case = Case::new("C15", "session-long-game-then-search", seed, Mode::Session);
@@ -1266,11 +1342,12 @@ pub fn gen_c15(seed: u64, thorough: bool) -> Case {
             case.items.push(ditem(f, &[], None, Some(rng.log_uniform(10, 20_000))));
             return case;
         }
-        let nm = *rng.pick(&["218-moves", "nine-queens", "queens-both", "promo-capture", "perft4", "kiwipete"]);
+        let nm = *rng.pick(&["218-moves", "nine-queens", "queens-both", "promo-capture", "perft4", "kiwipete", "fortress", "fortress-b", "pawn-wall"]);
         let r = ROOTS.iter().find(|x| x.name == nm).unwrap();
         let n = rng.below(6);
         let pre = walk(&mut rng, r.fen, n);
-        case.items.push(ditem(r.fen, &pre, Some(rng.range(1, 3) as u8), None));
+        let dd = if r.class == 0 { rng.range(1, 8) } else { rng.range(1, 3) };
+        case.items.push(ditem(r.fen, &pre, Some(dd as u8), None));
         case.items.push(ditem(r.fen, &pre, None, Some(rng.log_uniform(100, 100_000))));
         case
     }
